@@ -211,10 +211,11 @@ def run(ctx):
             for old, new in enumerate(perm):
                 P2[new] = P[old]
             if rep == 0 and (F or C):
-                # the same shape 10^5 times smaller (faces of area ~1e-10, cells of volume ~1e-15)
-                cases.append({"id": "%s-%d-tiny" % (name, len(cases)),
-                              "given": {"P": P2, "F0": [[perm[v] for v in f] for f in F], "C0": [[perm[v] for v in c] for c in C],
-                                        "E0": [], "family": name, "hist": "", "scale10": 5}, "events": evs})
+                # the same shape 10^5 and 10^8 times smaller (faces of area ~1e-10 / ~1e-16)
+                for k10 in (5, 8):
+                    cases.append({"id": "%s-%d-tiny%d" % (name, len(cases), k10),
+                                  "given": {"P": P2, "F0": [[perm[v] for v in f] for f in F], "C0": [[perm[v] for v in c] for c in C],
+                                            "E0": [], "family": name, "hist": "", "scale10": k10}, "events": evs})
             for hist in (["", "warm", "moved"] if (F and rep == 0) else [""]):
                 cases.append({"id": "%s-%d-%d%s" % (name, len(cases), rep, hist),
                               "given": {"P": P2, "F0": [[perm[v] for v in f] for f in F], "C0": [[perm[v] for v in c] for c in C],
